@@ -266,7 +266,7 @@ def scalars(kind, tier, big=False):
     S = [0, 1, -1, 2.0, 0.5]
     if kind == 'c':
         S += [1j, -1j, 1 + 1j]
-    if tier == 'thorough':
+    if tier == 'thorough' and not big:
         S += [3.0]
         if kind == 'c':
             S += [1 + 0.5j]
@@ -331,6 +331,7 @@ class Ctx(object):
         self.first = {}
         self.evals = 0
         self.skipped = 0
+        self.inexact = 0
         self.sigs = set()
         self.C = None
         self.snaps = None
@@ -343,7 +344,7 @@ class Ctx(object):
         n = self.info.n
         if n < 25:
             return int(math.ceil(25.0 / n))                    # all value pairs
-        if self.tier == 'thorough' and n < 125:
+        if self.cfg.get('tri') and n < 125:
             return int(math.ceil(125.0 / n))                   # all value triples
         return 1
 
@@ -394,7 +395,12 @@ class Ctx(object):
         if tol is None:
             return bool(np.array_equal(got, exp))
         with np.errstate(invalid='ignore'):
-            return bool(np.all(np.abs(got - exp) <= tol))
+            ok = bool(np.all(np.abs(got - exp) <= tol))
+        if ok and not np.array_equal(got, exp):
+            # diagnostic only: within the stated tolerance but not bit-exact (the divide-then-
+            # multiply of the fallback axpy with a non-dyadic scalar, fractional powers)
+            self.inexact += 1
+        return ok
 
     def check(self, fam, label, thunk, exp, mut=None, tol=None, ret_is_out=True,
               operands=(), fresh=False, sig=None, arrays=(), where=''):
@@ -476,6 +482,7 @@ class Ctx(object):
     def result(self, trivial=False):
         viol = [{'site': s, 'symptom': y, 'detail': d} for (s, y), d in self.first.items()]
         return {'evals': self.evals, 'viol': viol, 'skipped': self.skipped,
+                'inexact': self.inexact,
                 'sig': sorted('%s|%s' % (self.info.tag, s) for s in self.sigs),
                 'trivial': self.evals == 0 or trivial}
 
@@ -616,28 +623,32 @@ def run_arith(cfg):
                 X = Cw[i]
                 ops = (('x', C[i]),)
                 e_mul = cast(a * X)
-                cx.check('scalar_mul', '%r * r%d' % (a, i), lambda: a * E[i], e_mul,
+                t_mul = tol_of(a * X)
+                # x + a is lincomb(1, x, a, one): the fallback axpy divides by a and multiplies
+                # back, which is exact only for the dyadic scalars -> magnitude |x| + |a|
+                t_add = None if ex else TOL_ULPS * cx.eps * (np.abs(X).astype(float) + abs(a))
+                cx.check('scalar_mul', '%r * r%d' % (a, i), lambda: a * E[i], e_mul, tol=t_mul,
                          operands=ops, sig='a*x:' + sc)
-                cx.check('scalar_mul', 'r%d * %r' % (i, a), lambda: E[i] * a, e_mul,
+                cx.check('scalar_mul', 'r%d * %r' % (i, a), lambda: E[i] * a, e_mul, tol=t_mul,
                          operands=ops, sig='x*a:' + sc)
                 cx.check('scalar_mul', 'r%d *= %r' % (i, a), lambda: operator.imul(E[i], a),
-                         e_mul, mut=i, operands=ops, sig='x*=a:' + sc)
+                         e_mul, mut=i, tol=t_mul, operands=ops, sig='x*=a:' + sc)
                 e_add = cast(X + a)
-                cx.check('scalar_add', 'r%d + %r' % (i, a), lambda: E[i] + a, e_add,
+                cx.check('scalar_add', 'r%d + %r' % (i, a), lambda: E[i] + a, e_add, tol=t_add,
                          operands=ops, sig='x+a:' + sc)
-                cx.check('scalar_add', '%r + r%d' % (a, i), lambda: a + E[i], e_add,
+                cx.check('scalar_add', '%r + r%d' % (a, i), lambda: a + E[i], e_add, tol=t_add,
                          operands=ops, sig='a+x:' + sc)
                 cx.check('scalar_add', 'r%d += %r' % (i, a), lambda: operator.iadd(E[i], a),
-                         e_add, mut=i, operands=ops, sig='x+=a:' + sc)
+                         e_add, mut=i, tol=t_add, operands=ops, sig='x+=a:' + sc)
                 if kind != 'u':
                     e_sub = cast(X - a)
                     cx.check('scalar_add', 'r%d - %r' % (i, a), lambda: E[i] - a, e_sub,
-                             operands=ops, sig='x-a:' + sc)
+                             tol=t_add, operands=ops, sig='x-a:' + sc)
                     cx.check('scalar_add', '%r - r%d' % (a, i), lambda: a - E[i], cast(a - X),
-                             operands=ops, sig='a-x:' + sc)
+                             tol=t_add, operands=ops, sig='a-x:' + sc)
                     cx.check('scalar_add', 'r%d -= %r' % (i, a),
-                             lambda: operator.isub(E[i], a), e_sub, mut=i, operands=ops,
-                             sig='x-=a:' + sc)
+                             lambda: operator.isub(E[i], a), e_sub, mut=i, tol=t_add,
+                             operands=ops, sig='x-=a:' + sc)
                 if isint:
                     # X: "/" on integer spaces is not closed over the integers: unspecified
                     cx.skipped += 3
@@ -1118,6 +1129,8 @@ def _lincomb_cfgs(spec, lay, tier, shared=False):
     base = {'kind': 'lincomb', 'space': spec, 'lay': lay, 'tier': tier}
     if shared:
         base['shared'] = 1
+    if tier == 'thorough' and 25 <= _spec_size(spec) < 125 and _ndev(lay) <= 1:
+        base['tri'] = 1     # all (x1, x2, previous out) value triples, not only all pairs
     if _is_big(spec):
         nS = len(scalars(R.kind(_spec_dtype(spec)), tier, True))
         return [dict(base, a=a) for a in range(nS)]
@@ -1143,13 +1156,16 @@ def configs(tier):
         nd, size = _spec_ndim(spec), _spec_size(spec)
         if spec[0] != 'T':
             return _lay_combos(nd, tier, 1)
+        main = spec[2] in DT_Q
         if thorough:
-            if size < 25:
-                md = 2
+            if size == 1:
+                md = 0
+            elif size < 25:
+                md = 1
             elif _is_big(spec):
-                md = 2 if (nd < 3 and spec[2] in DT_Q) else 1
+                md = 2 if (nd < 3 and spec[2] == 'float64') else 1
             else:
-                md = None
+                md = None if main else 2        # full product for the four main dtypes
         else:
             md = 2 if 25 <= size < BIG else (1 if size > 1 else 0)
         return _lay_combos(nd, tier, md)
@@ -1160,7 +1176,7 @@ def configs(tier):
         if spec[0] != 'T':
             return _lay_combos(nd, tier, 1)
         c = _lay_combos(nd, tier, 2 if (thorough and 25 <= size < BIG) else 1)
-        if size < 25 or (_is_big(spec) and not thorough):
+        if size < 25 or _is_big(spec):
             c = [x for x in c if len(set(x)) == 1] + [x for x in c if _ndev(x) == 1][:1]
         return c
 
@@ -1175,8 +1191,8 @@ def configs(tier):
     def modes(spec):
         return ['V'] if R.kind(_spec_dtype(spec)) in 'iu' else ['V', 'D']
     for spec in tens + discr + psp:
-        if spec[0] == 'T' and not thorough and spec[1] == [49999]:
-            continue        # same regime as 100..49998 for everything above lincomb
+        if spec[0] == 'T' and spec[1] in ([49999], [50001], [40, 25, 50]):
+            continue        # regimes of the layer below are the business of the lincomb kind
         for lay in ar_combos(spec):
             for mode in modes(spec):
                 cfgs.append({'kind': 'arith', 'space': spec, 'lay': lay, 'mode': mode,
@@ -1204,8 +1220,9 @@ def configs(tier):
                 (['T', [250, 200], 'float64'], ['F', 'F', 'F']),
                 (['T', [250, 200], 'float32'], ['F', 'C', 'F']),
                 (['P', RN(120), RN(3)], ['C', 'C', 'C'])]
+    deep = [(RN(100), ['C', 'S0', 'C']), (RN(101, 'complex128'), ['C', 'C', 'C'])]
     for spec, lay in hsp:
-        depth = 3 if (thorough and not _is_big(spec)) else 2
+        depth = 3 if (thorough and (spec, lay) in deep) else 2
         nops = hist_alphabet_size(R.kind(_spec_dtype(spec)))
         for f in range(nops):
             cfgs.append({'kind': 'hist', 'space': spec, 'lay': lay, 'depth': depth, 'first': f,
@@ -1230,11 +1247,14 @@ def trace_functions():
 
 def summarize(results):
     by = {}
+    inexact = 0
     for cfg, res in results:
         d = by.setdefault(cfg['kind'], {'states': 0, 'evals': 0})
         d['states'] += 1
         d['evals'] += res['evals']
-    return {'per_kind': by}
+        inexact += res.get('inexact', 0)
+    return {'per_kind': by,
+            'diagnostic_within_tolerance_but_not_bit_exact': inexact}
 
 
 def meta(tier):
